@@ -20,8 +20,10 @@ DEFAULTS = {0x09: [0], 0x0A: [0], 0x18: [0], 0x1A: [0], 0x39: [0], 0x42: [1], 0x
 
 
 class PropDevice:
-    def __init__(self, model, profile, lose=(), ext=None):
+    def __init__(self, model, profile, lose=(), ext=None, lose_state=()):
         self.m = model
+        self.lose_state = set(lose_state)   # indices of the SetState (0x40) commands whose answer is lost
+        self.nstate = 0
         self.ext = dict(ext or {})   # {index of the property QUERY (0 = first): [(id, value bytes)]}: changed on the appliance by
         self.ngets = 0               # someone else (remote control, the unit itself) just before that query is answered
         self.lose = set(lose)   # indices (0 = first) of the property WRITES whose acknowledgement is lost on the way back
@@ -45,6 +47,10 @@ class PropDevice:
             out = [A.mk_frame(A.caps_body(self.caps))]
         elif body[0] in (0x40, 0x41):
             out = [A.mk_frame(A.state_body(None, n=24))]
+            if body[0] == 0x40:
+                if self.nstate in self.lose_state:
+                    out = []
+                self.nstate += 1
         elif body[0] in (0xB0, 0xB1):
             if body[0] == 0xB1:
                 for k, v in self.ext.get(self.ngets, []):
